@@ -406,6 +406,8 @@ func (d *director) genTx(avoid map[string]bool) (txRec, bool) {
 			val = rapid.SampledFrom([]int64{1_000_000, 15_000_000_000, 15_000_000_001, 29_000_000_000, 46_000_000_000}).Draw(rt, "v")
 		case "pos/MaxJailedBlocks":
 			val = int64(rapid.IntRange(2, 6).Draw(rt, "v"))
+		case "pocketcore/SessionNodeCount":
+			val = int64(rapid.IntRange(1, 4).Draw(rt, "v"))
 		default:
 			panic("unknown param " + key)
 		}
